@@ -225,7 +225,7 @@ def p_c04(prop, tier):
 
 def p_c05(prop, tier):
     cfgs = CFG5 if tier == "quick" else CFG8
-    count = 300000 if tier == "quick" else 6000000
+    count = 1000000 if tier == "quick" else 6000000
     count = int(count * common.budget_scale())
     shards = 3 if tier == "quick" else 4
     if tier == "thorough":
@@ -517,6 +517,61 @@ def p_c19(prop, tier):
     return generic(prop, tier, jobs, rule, ["copies that accept nan/inf/infinity are recognised by the presence of their case-insensitive matcher; NaN is compared as 'is a NaN' (payload/sign not judged)"] + ASSUME_ORACLE)
 
 
+def unsafe_coverage(prop, sd, workdir, cfgs, evals):
+    """Evidence only (no verdict): which lines of the crate that contain unsafe operations were executed by the C08 driver.
+    Built with -Cinstrument-coverage, measured with the toolchain's llvm-profdata / llvm-cov."""
+    sysroot = subprocess.run(["rustc", "+nightly", "--print", "sysroot"], stdout=subprocess.PIPE, text=True).stdout.strip()
+    tools = os.path.join(sysroot, "lib/rustlib/x86_64-unknown-linux-gnu/bin")
+    if not os.path.exists(os.path.join(tools, "llvm-cov")):
+        return {"error": "llvm-cov not found in the nightly sysroot"}
+    hits = {}       # (file, line) -> max count
+    seen = set()    # (file, line) instrumented somewhere
+    for cfg in cfgs:
+        try:
+            bindir = build(cfg, "rel", ["eng_mem"], "cov")
+        except BuildError as e:
+            return {"error": "coverage build failed for %s" % cfg}
+        raw = os.path.join(workdir, "cov-%s-%%p.profraw" % cfg.replace("+", "_"))
+        env = base_env()
+        env["LLVM_PROFILE_FILE"] = raw
+        exe = os.path.join(bindir, "eng_mem")
+        subprocess.run([exe, "--prop", prop, "--seed", str(sd), "--max-evals", str(evals), "--budget-s", "60", "--replay-dir", REPLAYS], env=env, stdout=subprocess.PIPE, stderr=subprocess.PIPE, timeout=600)
+        raws = glob.glob(os.path.join(workdir, "cov-%s-*.profraw" % cfg.replace("+", "_")))
+        if not raws:
+            continue
+        prof = os.path.join(workdir, "cov-%s.profdata" % cfg.replace("+", "_"))
+        subprocess.run([os.path.join(tools, "llvm-profdata"), "merge", "-sparse", "-o", prof] + raws, stdout=subprocess.PIPE, stderr=subprocess.PIPE)
+        q = subprocess.run([os.path.join(tools, "llvm-cov"), "export", "-format=lcov", "-instr-profile", prof, exe], stdout=subprocess.PIPE, stderr=subprocess.PIPE, text=True)
+        cur = None
+        for line in q.stdout.splitlines():
+            if line.startswith("SF:"):
+                f = line[3:]
+                cur = f[len(common.REPO) + 1:] if f.startswith(common.REPO + "/src/") else None
+            elif line.startswith("DA:") and cur:
+                ln, cnt = line[3:].split(",")[:2]
+                k = (cur, int(ln))
+                seen.add(k)
+                hits[k] = max(hits.get(k, 0), int(cnt))
+    # lines with unsafe operations in the crate's sources
+    sites = []
+    pat = re.compile(r"unsafe\s*\{|get_unchecked|ptr::(read|write|copy)|set_len\(|from_raw_parts|_unchecked\(")
+    for f in sorted(glob.glob(os.path.join(common.REPO, "src", "*.rs"))):
+        rel = f[len(common.REPO) + 1:]
+        if rel.endswith("verif.rs"):
+            continue
+        for i, line in enumerate(open(f), 1):
+            t = line.strip()
+            if t.startswith("//") or "unsafe fn" in t or "verif" in t:
+                continue
+            if pat.search(t):
+                sites.append((rel, i, t[:90]))
+    executed = ["%s:%d  %s" % (f, l, t) for (f, l, t) in sites if hits.get((f, l), 0) > 0]
+    not_exec = ["%s:%d  %s" % (f, l, t) for (f, l, t) in sites if (f, l) in seen and hits.get((f, l), 0) == 0]
+    not_comp = ["%s:%d  %s" % (f, l, t) for (f, l, t) in sites if (f, l) not in seen]
+    return {"configurations": cfgs, "driver_executions_per_configuration": evals, "unsafe_sites_total": len(sites), "executed": executed, "instrumented_but_never_executed": not_exec,
+            "not_instrumented_in_these_configurations": not_comp}
+
+
 def p_c08(prop, tier):
     sc = common.budget_scale()
     if tier == "quick":
@@ -571,6 +626,11 @@ def p_c08(prop, tier):
                         violations.append({"sig": "miri-native-mismatch:%s:%s" % (r.job.cfg, r.job.prof), "what": body["what"], "replay": path})
         cov["executions_per_tool"] = per_tool
         cov["interpreter_shards_compared_with_native"] = n
+        if tier == "thorough":
+            try:
+                cov["unsafe_line_coverage_of_the_driver"] = unsafe_coverage(prop, sd, workdir, ["default", "alloc", "compact", "nostd+compact"], 300000)
+            except Exception as e:  # evidence only: never affects the verdict
+                cov["unsafe_line_coverage_of_the_driver"] = {"error": str(e)}
         for tool in (["miri-sb", "miri-tb", "asan"] + (["valgrind"] if tier == "thorough" else [])):
             if per_tool.get(tool, {}).get("executions", 0) == 0:
                 inconclusive.append("no execution completed under %s" % tool)
